@@ -35,6 +35,23 @@ CHECKS = {
                                   "real Broker", note=BROKER_NOTE),
 }
 
+CHECKS["C03"] = dict(
+    text="TLC checks TargetReached / FrictionlessNlv / NoSpuriousFailure (invariants) and SecondRebalanceIdle (action property) "
+         "on Broker.tla with exact rational arithmetic: after every rebalance, from every prior holding the bounded model can "
+         "reach, position x multiplier x execution-side quote = w x pre-trade NLV for targeted contracts, untargeted holdings are "
+         "closed, lot targets are reached exactly. Every model state is replayed into the real Broker and positions, trades, "
+         "pre/post NLV are compared with the exact rationals.",
+    design="5 C03", technique="TLA+ spec with exact rationals (Rat.tla) model-checked with TLC; every model state replayed "
+                              "into the real Broker", note=BROKER_NOTE)
+CHECKS["C12"] = dict(
+    text="TLC checks the declarative trade filter TradeIff (action property: a contract is traded iff its imbalance is non-zero "
+         "and its imbalance weight >= threshold or it is held and untargeted, whole lots by truncation toward zero, sub-lot "
+         "imbalances skipped), NoZeroTrades and NoSpuriousFailure against the mechanism MakeTradesF; every rebalance of every "
+         "model state - including imbalance weights exactly at and 1/64 around the threshold in a dyadic model where binary "
+         "floating point is exact - is replayed into the real Broker and the emitted trades compared.",
+    design="5 C12", technique="TLA+ spec model-checked with TLC; every model state replayed into the real Broker",
+    note=BROKER_NOTE)
+
 PENDING = "check not built yet in this round (the TLA+ model for it is planned in DESIGN.md section 5); listed here until its check is registered"
 
 
